@@ -1570,3 +1570,66 @@ def announced_sizes(prog, rep, rule="W12-announced"):
     if nsrc < 2:
         rep.defer_broken("%s: fewer than 2 parsed numbers found in http.c" % rule)
     return n
+
+
+def header_count(prog, rep, rule="W9-count"):
+    """The header lines are counted with the tokenizer that later takes them out: every increment of .nheaders in gotheaders is
+    in a cycle with one findeol call over the rest of the head (start &res_head[pos], length res_headlen - pos) whose answer
+    plus the terminator's length -- the same constant sgetline skips -- is what advances pos; no trip round the cycle misses
+    the call.  (Counting line feeds instead counts the bare ones inside a header's value too: the parsing loop then asks
+    sgetline for lines that are not there, and its assertion aborts the process.)"""
+    u = prog.unit(UNIT)
+    f, sg = u.func("gotheaders"), u.func("sgetline")
+    if f is None or sg is None:
+        raise cdb.AnalysisBroken("anchor missing: gotheaders / sgetline")
+
+    def skip_of(g):
+        """constants K of `pos += <findeol's answer> + K` in g"""
+        out = []
+        for e in g.all_elems():
+            st = ir.step(e)
+            if st and st[0] == "+=" and st[2][0] == "+" and len(st[2]) == 3 and ("c",) == st[2][2][:1]:
+                out.append((e, st[1], st[2][1], st[2][2][1]))
+        return out
+    ks = set(k for _, _, _, k in skip_of(sg))
+    if len(ks) != 1:
+        raise cdb.AnalysisBroken("sgetline: the skip after a line is not a single `pos += len + K`")
+    K = ks.pop()
+    incs = [e for e in f.all_elems() if ir.step(e) and ir.step(e)[0] == "+=" and ir.step(e)[1][0] == "." and ir.step(e)[1][2] == "nheaders"]
+    if not incs:
+        raise cdb.AnalysisBroken("gotheaders no longer counts .nheaders by increments: the counting rule has nothing to decide")
+    n = 0
+    for inc in incs:
+        n += 1
+        cyc = lambda a, b: a.block.id == b.block.id or (b.block.id in f.reach_from(a.block.id) and a.block.id in f.reach_from(b.block.id))
+        calls = [c for c in f.calls("findeol") if cyc(inc, c)]
+        why = ""
+        ok = len(calls) == 1
+        if not ok:
+            why = "%d findeol calls in the counting loop" % len(calls)
+        else:
+            c = calls[0]
+            a0, a1 = norm(c.arg(0)), norm(c.arg(1))
+            ok = a0[0] == "&" and a0[1][0] == "[]" and a0[1][1][0] == "." and a0[1][1][2] == "res_head"
+            pos = a0[1][2] if ok else None
+            ok = ok and a1[0] == "-" and a1[1][0] == "." and a1[1][2] == "res_headlen" and a1[2] == pos
+            if not ok:
+                why = "findeol is not given the rest of the head from the counting position (%s, %s)" % (show(a0), show(a1))
+            else:
+                holder = [norm(e.kid(0)) for e in f.all_elems() if e.is_assign and e.op == "=" and e.kid(1) is not None and e.kid(1).strip() is c]
+                adv = [(e, amt, k) for e, tgt, amt, k in skip_of(f) if tgt == pos and cyc(inc, e)]
+                ok = len(holder) == 1 and len(adv) == 1 and adv[0][1] == holder[0] and adv[0][2] == K
+                if not ok:
+                    why = "the counting position is not advanced by findeol's answer + %d (advances: %s)" % (K, [(show(a), k) for _, a, k in adv])
+                else:
+                    # no trip round the cycle without the call, and no other write of the position inside it
+                    if inc.block.id != c.block.id and any(s is not None and f.reach_avoiding(s, inc.block.id, c.block.id) for s in f.blocks[inc.block.id].succs):
+                        ok, why = False, "a trip round the counting loop can miss the findeol call"
+                    other = [e for e in f.all_elems() if (e.is_assign or e.is_incdec) and norm(e.kid(0)) == pos and e is not adv[0][0] and cyc(inc, e)
+                             and not (e.is_assign and e.op == "=" and norm(e.kid(1)) == ("c", 0) and not cyc(e, e))]
+                    other = [e for e in other if e.block.id in f.reach_from(e.block.id)]
+                    if ok and other:
+                        ok, why = False, "the counting position is also written at %s" % other[0].loc
+        rep.check(ok, rule, "each header line counted is one line of the tokenizer (findeol, skip %d) that later extracts it" % K, inc.where, why,
+                  function=f.name, construct="count-tokenizer")
+    return n
